@@ -569,7 +569,7 @@ def _node_representer(dumper, node):
 
         current = metadata[f]
         parent = parent_metadata.get(f, None) if parent_metadata else None
-        default = type_defaults[f]
+        default = type_defaults[f] if f != 'safe' else None # the default of "safe" belongs to the source being loaded, not to the node
         if current is not None:
             # a value stated by an enclosing node is what the re-parsed node inherits, the type default only applies without one
             if current == (parent if parent is not None else default):
